@@ -1,0 +1,190 @@
+//go:build verif
+
+package lint
+
+// Machine-checked contracts for the verification machinery in /verif (govc).
+// This file contains comments only and is compiled only with -tags verif.
+// Syntax: see /verif/DESIGN.md section 2.2.  [Cnn] tags name the properties of
+// /verif/properties.jsonl a function or clause serves.
+
+// ---------------------------------------------------------------------------
+// effective window (C03)
+
+//@ spec inWindow(e time.Time, i time.Time, t time.Time) bool =
+//@      (isZeroT(e) || inst(t) >= inst(e)) && (isZeroT(i) || inst(t) < inst(i))
+
+//@ func checkEffective [C03]
+//@   pure
+//@   nopanic
+//@   ensures result == inWindow(effective, ineffective, target)
+
+//@ func (*CertificateLint).CheckEffective [C03]
+//@   pure
+//@   requires l != nil && c != nil
+//@   nopanic
+//@   ensures result == inWindow(l.EffectiveDate, l.IneffectiveDate, c.NotBefore)
+
+//@ func (*RevocationListLint).CheckEffective [C03]
+//@   pure
+//@   requires l != nil && r != nil
+//@   nopanic
+//@   ensures result == inWindow(l.EffectiveDate, l.IneffectiveDate, r.ThisUpdate)
+
+//@ func (*OcspResponseLint).CheckEffective [C03]
+//@   pure
+//@   requires l != nil && o != nil
+//@   nopanic
+//@   ensures result == inWindow(l.EffectiveDate, l.IneffectiveDate, o.NextUpdate)
+
+//@ func (*Lint).toCertificateLint [C03]
+//@   requires l != nil
+//@   nopanic
+//@   assigns \fresh
+//@   ensures result != nil && fresh(result) && result.Lint == l.Lint
+//@   ensures result.Name == l.Name && result.Description == l.Description && result.Citation == l.Citation
+//@   ensures result.Source == l.Source && result.EffectiveDate == l.EffectiveDate && result.IneffectiveDate == l.IneffectiveDate
+
+//@ func (*Lint).CheckEffective [C03]
+//@   requires l != nil && c != nil
+//@   nopanic
+//@   assigns \fresh
+//@   ensures result == inWindow(l.EffectiveDate, l.IneffectiveDate, c.NotBefore)
+
+// ---------------------------------------------------------------------------
+// the lint body as the framework sees it (interface contracts; proved per lint by
+// the schematic obligations of C01/C06, frame by C05)
+
+//@ trace field CertificateLint.Lint as Ctor
+//@ trace field RevocationListLint.Lint as Ctor
+//@ trace field OcspResponseLint.Lint as Ctor
+//@ trace func (Configuration).MaybeConfigure as Cfg
+//@ trace interface CertificateLintInterface.CheckApplies as Applies
+//@ trace interface RevocationListLintInterface.CheckApplies as Applies
+//@ trace interface OcspResponseLintInterface.CheckApplies as Applies
+//@ trace interface CertificateLintInterface.Execute as Exec
+//@ trace interface RevocationListLintInterface.Execute as Exec
+//@ trace interface OcspResponseLintInterface.Execute as Exec
+
+//@ field CertificateLint.Lint
+//@   maypanic
+//@   assigns \fresh
+//@   ensures result != nil && fresh(result)
+//@ field RevocationListLint.Lint
+//@   maypanic
+//@   assigns \fresh
+//@   ensures result != nil && fresh(result)
+//@ field OcspResponseLint.Lint
+//@   maypanic
+//@   assigns \fresh
+//@   ensures result != nil && fresh(result)
+
+//@ interface CertificateLintInterface.CheckApplies
+//@   maypanic
+//@   assigns \fresh
+//@ interface CertificateLintInterface.Execute
+//@   maypanic
+//@   assigns \fresh
+//@   ensures result != nil && fresh(result) && 1 <= result.Status && result.Status <= 7
+//@ interface RevocationListLintInterface.CheckApplies
+//@   maypanic
+//@   assigns \fresh
+//@ interface RevocationListLintInterface.Execute
+//@   maypanic
+//@   assigns \fresh
+//@   ensures result != nil && fresh(result) && 1 <= result.Status && result.Status <= 7
+//@ interface OcspResponseLintInterface.CheckApplies
+//@   maypanic
+//@   assigns \fresh
+//@ interface OcspResponseLintInterface.Execute
+//@   maypanic
+//@   assigns \fresh
+//@   ensures result != nil && fresh(result) && 1 <= result.Status && result.Status <= 7
+
+// ---------------------------------------------------------------------------
+// configuration (C11)
+
+//@ interface Configurable.Configure
+//@   maypanic
+//@   assigns \nothing
+//@   ensures notolder(result, this)
+
+//@ func (Configuration).MaybeConfigure [C04 C11]
+//@   maypanic
+//@   assigns \fresh, \after(lint)
+//@   ensures implies(!implementsI(lint, Configurable), result == nil)
+
+//@ func (Configuration).Configure [C11]
+//@   maypanic
+//@   assigns \fresh, \after(lint)
+
+// ---------------------------------------------------------------------------
+// execution order and verdict pass-through (C01 C03 C04 C11)
+
+//@ spec inScope(src LintSource, c *x509.Certificate) bool =
+//@      implies(src == CABFBaselineRequirements,      util.IsServerAuthCert(c)) &&
+//@      implies(src == CABFSMIMEBaselineRequirements, util.IsEmailProtectionCert(c)) &&
+//@      implies(src == CABFCSBaselineRequirements,    util.IsCodeSigning(c.PolicyIdentifiers))
+
+//@ func (*CertificateLint).execute [C01 C03 C04 C11]
+//@   requires l != nil && cert != nil && l.Lint != nil
+//@   maypanic
+//@   assigns \fresh
+//@   ensures [C01] result != nil && fresh(result) && 1 <= result.Status && result.Status <= 7
+//@   ensures [C04] implies(!old(inScope(l.Source, cert)),
+//@              result.Status == NA && g.nCtor == 0 && g.nCfg == 0 && g.nApplies == 0 && g.nExec == 0)
+//@   ensures [C04 C11] implies(old(inScope(l.Source, cert)),
+//@              g.nCtor == 1 && g.nCfg == 1 && g.tCtor < g.tCfg && g.argCfg == g.retCtor)
+//@   ensures [C04 C11] implies(old(inScope(l.Source, cert)) && g.retCfg != nil,
+//@              result.Status == Fatal && g.nApplies == 0 && g.nExec == 0)
+//@   ensures [C04] implies(old(inScope(l.Source, cert)) && g.retCfg == nil,
+//@              g.nApplies == 1 && g.recvApplies == g.retCtor && g.tCfg < g.tApplies)
+//@   ensures [C04] implies(old(inScope(l.Source, cert)) && g.retCfg == nil && !g.retApplies,
+//@              result.Status == NA && g.nExec == 0)
+//@   ensures [C03 C04] implies(old(inScope(l.Source, cert)) && g.retCfg == nil && g.retApplies &&
+//@                    !inWindow(old(l.EffectiveDate), old(l.IneffectiveDate), old(cert.NotBefore)),
+//@              result.Status == NE && g.nExec == 0)
+//@   ensures [C03 C04] implies(old(inScope(l.Source, cert)) && g.retCfg == nil && g.retApplies &&
+//@                    inWindow(old(l.EffectiveDate), old(l.IneffectiveDate), old(cert.NotBefore)),
+//@              g.nExec == 1 && g.recvExec == g.retCtor && g.tApplies < g.tExec && result == g.retExec)
+
+//@ func (*CertificateLint).Execute [C01 C03 C04 C11]
+//@   requires l != nil && cert != nil && l.Lint != nil
+//@   nopanic
+//@   assigns \fresh
+//@   ensures [C01] result != nil && fresh(result) && 1 <= result.Status && result.Status <= 7
+//@   ensures [C01 C04] implies(g.panicked, result.Status == Fatal)
+//@   ensures [C03] implies(!inWindow(old(l.EffectiveDate), old(l.IneffectiveDate), old(cert.NotBefore)),
+//@              result.Status != Pass && result.Status != Notice && result.Status != Warn && result.Status != Error)
+//@   ensures [C04] implies(!g.panicked && !old(inScope(l.Source, cert)), result.Status == NA)
+
+//@ func (*RevocationListLint).Execute [C01 C03 C04 C11]
+//@   requires l != nil && r != nil && l.Lint != nil
+//@   maypanic
+//@   assigns \fresh
+//@   ensures [C01] result != nil && fresh(result) && 1 <= result.Status && result.Status <= 7
+//@   ensures [C04 C11] g.nCtor == 1 && g.nCfg == 1 && g.tCtor < g.tCfg && g.argCfg == g.retCtor
+//@   ensures [C04 C11] implies(g.retCfg != nil, result.Status == Fatal && g.nApplies == 0 && g.nExec == 0)
+//@   ensures [C04] implies(g.retCfg == nil, g.nApplies == 1 && g.recvApplies == g.retCtor && g.tCfg < g.tApplies)
+//@   ensures [C04] implies(g.retCfg == nil && !g.retApplies, result.Status == NA && g.nExec == 0)
+//@   ensures [C03 C04] implies(g.retCfg == nil && g.retApplies &&
+//@                    !inWindow(old(l.EffectiveDate), old(l.IneffectiveDate), old(r.ThisUpdate)),
+//@              result.Status == NE && g.nExec == 0)
+//@   ensures [C03 C04] implies(g.retCfg == nil && g.retApplies &&
+//@                    inWindow(old(l.EffectiveDate), old(l.IneffectiveDate), old(r.ThisUpdate)),
+//@              g.nExec == 1 && g.recvExec == g.retCtor && g.tApplies < g.tExec && result == g.retExec)
+
+//@ func (*OcspResponseLint).Execute [C01 C03 C04 C11]
+//@   requires l != nil && o != nil && l.Lint != nil
+//@   maypanic
+//@   assigns \fresh
+//@   ensures [C01] result != nil && fresh(result) && 1 <= result.Status && result.Status <= 7
+//@   ensures [C04 C11] g.nCtor == 1 && g.nCfg == 1 && g.tCtor < g.tCfg && g.argCfg == g.retCtor
+//@   ensures [C04 C11] implies(g.retCfg != nil, result.Status == Fatal && g.nApplies == 0 && g.nExec == 0)
+//@   ensures [C04] implies(g.retCfg == nil, g.nApplies == 1 && g.recvApplies == g.retCtor && g.tCfg < g.tApplies)
+//@   ensures [C04] implies(g.retCfg == nil && !g.retApplies, result.Status == NA && g.nExec == 0)
+//@   ensures [C03 C04] implies(g.retCfg == nil && g.retApplies &&
+//@                    !inWindow(old(l.EffectiveDate), old(l.IneffectiveDate), old(o.NextUpdate)),
+//@              result.Status == NE && g.nExec == 0)
+//@   ensures [C03 C04] implies(g.retCfg == nil && g.retApplies &&
+//@                    inWindow(old(l.EffectiveDate), old(l.IneffectiveDate), old(o.NextUpdate)),
+//@              g.nExec == 1 && g.recvExec == g.retCtor && g.tApplies < g.tExec && result == g.retExec)
